@@ -128,14 +128,16 @@ def _xarray(
 
     coords = {}
     for axes, dct in coord_mapping.items():
-        if len(dct) == 1:
-            name, (array,) = next(iter(dct.items()))
+        if len(dct) == 1 or len(axes) > 1:
+            # A `pandas.MultiIndex` is one-dimensional: N-D inputs stay separate coordinates
+            for name, (array,) in dct.items():
+                coords[name] = (axes, array)
         else:
             names = list(dct.keys())
             name = ":".join(names)
             arrays = list(itertools.chain.from_iterable(dct.values()))
             array = pd.MultiIndex.from_arrays(arrays, names=names)
-        coords[name] = (axes, array)
+            coords[name] = (axes, array)
 
     return xr.DataArray(data, coords=coords, dims=axes_mapping[output_name], name=output_name)
 
